@@ -50,17 +50,20 @@ def visit(acc, blk, vec, asg, idx):
         acc["samples"].append({"vector": vec, "scores": got})
 
 
+def blocks(tier):
+    if tier == "thorough":
+        return spaces.v4_blocks("thorough", "short") + spaces.v4_blocks("quick", "override") + \
+            spaces.v4_xmod_blocks(("mid", "mid"))
+    return spaces.v4_blocks("quick", "short", ("mid", "mid")) + \
+        spaces.v4_blocks("quick", "override", ("min", "min")) + spaces.v4_xmod_blocks(("min", "min"))
+
+
 def run(ctx, res):
     n_off = official.validate("4", model)
     ctx.log("reference model reproduces %d official v4 vectors" % n_off)
-    if ctx.thorough:
-        blocks = spaces.v4_blocks("thorough", "short") + spaces.v4_blocks("quick", "override") + \
-            spaces.v4_xmod_blocks(("mid", "mid"))
-    else:
-        blocks = spaces.v4_blocks("quick", "short", ("mid", "mid")) + \
-            spaces.v4_blocks("quick", "override", ("min", "min")) + spaces.v4_xmod_blocks(("min", "min"))
-    tot = sweep.merge(product.run(ctx, blocks, visit, sweep.new_acc))
-    sweep.fill(res, ctx, tot, blocks,
+    blocks_ = blocks(ctx.tier)
+    tot = sweep.merge(product.run(ctx, blocks_, visit, sweep.new_acc))
+    sweep.fill(res, ctx, tot, blocks_,
                "every point of the listed product blocks over the v4 effective-value domains is "
                "spelled as a vector ('short': base metrics + MSI/MSA:S + non-default E/CR/IR/AR; "
                "'override': every value through its Modified metric over a differing base value, "
@@ -86,3 +89,7 @@ def replay(case):
         raise core.HarnessError("replay input is not a valid v4 vector")
     why, obs, exp = judge(vec, dict(got))
     return bool(why), why or "score %r as the specification's algorithm" % (obs,)
+
+
+def replay_task(case):
+    return product.replay_task(blocks(case.get("tier") or "quick"), visit, sweep.new_acc, case)
